@@ -486,42 +486,30 @@ def _field_ptr(E, st, ptr, i):
     return E.extend(st, ptr, i)
 
 
-def _range_aux(E, st, start, end):
-    """a counted loop `start..end` whose bound is a container's len: keep `end - start` and `len - i` (for the
-    integer locals i that start out equal to `start`) as auxiliary difference terms (see slots.note_shift)"""
+def _range_aux(E, st, ptr, start, end):
+    """first pull from `0..end` where end equals a container's len: remember end - start (of the Range stored at
+    ptr) and len - i (for the integer locals i that are 0 right now) as auxiliary differences (slots.aux_*)"""
     z = st.zone
-    if isinstance(end, int):
+    if isinstance(end, int) or not (start == 0 or (isinstance(start, Term) and z.entails_eq(start, 0))):
         return
-    if isinstance(start, int):
+    mids = [m for m, ms in st.maps.items() if not ms.dead and not ms.phantom and z.entails_eq(end, ms.len)]
+    if not mids:
         return
-    if z.entails_eq(start, 0):
-        slots.aux_make(st, end, start)
-        for mid, ms in st.maps.items():
-            if ms.dead or ms.phantom or not z.entails_eq(end, ms.len):
-                continue
-            if slots.aux_get(st, ms.len, start) is None or ms.len is end:
-                # the container's len gets a term of its own (it may share one with the loop bound, of which it
-                # is a copy): the two quantities part ways as soon as an element is removed
-                L = fresh('l')
-                z.add_eq(L, ms.len)
-                ms.len = L
-            for fr in st.frames.values():
-                for l in list(fr):
-                    v = fr[l]
-                    if not (isinstance(v, tuple) and len(v) == 2 and v[0] == 'int'):
-                        continue
-                    if v[1] == 0 and isinstance(v[1], int) and isinstance(l, int) and l > 0:
-                        # a local that holds the constant 0 (a cursor about to be advanced): the same value as
-                        # a term, so that len - cursor can be carried along
-                        t0 = fresh('c')
-                        z.add_eq(t0, 0)
-                        fr[l] = ('int', t0)
-                        v = fr[l]
-                    if isinstance(v[1], Term) and v[1] is not start and v[1] is not end and z.entails_eq(v[1], 0):
-                        slots.aux_make(st, ms.len, v[1])
-    d = slots.aux_get(st, end, start)
-    if d is not None:
-        z.add_lt(0, d)      # start < end was just assumed
+    rs, re_ = ('rs', ptr), ('re', ptr)
+    if slots.aux_find(st, re_, rs) is None:
+        d = fresh('x')
+        z.add_eq(d, end)            # start == 0
+        slots.aux_set(st, re_, rs, d)
+    for mid in mids:
+        for fid, fr in st.frames.items():
+            for l, v in fr.items():
+                if isinstance(l, int) and l > 0 and isinstance(v, tuple) and len(v) == 2 and v[0] == 'int' \
+                        and (v[1] == 0 if isinstance(v[1], int) else z.entails_eq(v[1], 0)):
+                    hi, lo = ('len', mid), ('loc', fid, l)
+                    if slots.aux_find(st, hi, lo) is None and len(st.aux) < 6:
+                        d = fresh('x')
+                        z.add_eq(d, st.maps[mid].len)       # the local is 0
+                        slots.aux_set(st, hi, lo, d)
 
 
 def ad_range_next(E, st, ptr, v, fid, item_ty=None):
@@ -532,15 +520,12 @@ def ad_range_next(E, st, ptr, v, fid, item_ty=None):
     s1 = st.fork()
     s1.zone.add_lt(a[1], b[1])
     if s1.zone.sat:
-        a1 = a[1]
-        if a1 == 0 and isinstance(b[1], Term) and any(
-                not ms.dead and not ms.phantom and s1.zone.entails_eq(b[1], ms.len) for ms in s1.maps.values()):
-            # `0..len`: give the start a term so that its auxiliary difference can be shifted along
-            a1 = fresh('s')
-            s1.zone.add_eq(a1, 0)
-        if isinstance(a1, Term):
-            _range_aux(E, s1, a1, b[1])
-        n = slots.plus(s1, a1, 1)
+        _range_aux(E, s1, ptr, a[1], b[1])
+        d = slots.aux_find(s1, ('re', ptr), ('rs', ptr))
+        if d is not None and not isinstance(d, int):
+            s1.zone.add_lt(0, d)        # start < end was just assumed
+        n = slots.plus(s1, a[1], 1)
+        slots.aux_shift(s1, ('rs', ptr), 1)
         E.store(s1, ptr, ('adt', RANGE, 0, (I(n), b)))
         out.append(('ret', s1, some(a)))
     st.zone.add_le(b[1], a[1])
